@@ -109,14 +109,14 @@ static int whnd(void *arg, const MPT_STRUCT(message) *msg)
 static void on_alarm(int sig)
 {
 	if (sig == SIGVTALRM)
-		vf_fail("model:sync:no-progress", "%s: mpt_stream_sync used 5 s of CPU time with every reply already delivered to the socket (spinning)", cur);
+		vf_fail("model:sync:no-progress", "%s: mpt_stream_sync used 2 s of CPU time with every reply already delivered to the socket (spinning)", cur);
 	vf_fail("model:sync:blocked", "%s: mpt_stream_sync still blocked after 60 s although every reply was delivered to the socket", cur);
 }
 static void guard(int on)
 {
 	struct itimerval v, r;
 	memset(&v, 0, sizeof(v)); memset(&r, 0, sizeof(r));
-	if (on) { v.it_value.tv_sec = 5; r.it_value.tv_sec = 60; }
+	if (on) { v.it_value.tv_sec = 2; r.it_value.tv_sec = 60; }
 	setitimer(ITIMER_VIRTUAL, &v, 0);
 	setitimer(ITIMER_REAL, &r, 0);
 }
